@@ -20,7 +20,7 @@ for p in procs:
                 if k not in samples or len(json.dumps(j["plan"])) < len(json.dumps(samples[k])): samples[k] = j["plan"]
 print(dict(st))
 for k, v in cnt.most_common():
-    if k.startswith(prop + "|"):
+    if k.startswith(prop + "|") or os.environ.get("SIGS_ALL"):
         name = "/tmp/sigs/%s-%s-%03d.json" % (prop, build, abs(hash(k)) % 1000)
         if k in samples: json.dump(samples[k], open(name, "w"))
         print(v, k, name if k in samples else "")
